@@ -51,12 +51,39 @@ EDITS = {
  'r14_from_message_local': ('C01', 'hotxlfp/formulas/error.py',
    "    return errdict.get(str(message), ERROR)\n",
    "    key = str(message)\n    if key in errdict:\n        return errdict[key]\n    return ERROR\n"),
+ 'r15_parse_extract_method': ('C02', 'hotxlfp/parser.py',
+   "        except Exception as e:\n            if self.debug:\n                traceback.print_exc()\n            error = str(formulaserror.from_message(e))\n\n        if isinstance(result, formulaserror.XLError):",
+   "        except Exception as e:\n            error = self._error_text(e)\n\n        if isinstance(result, formulaserror.XLError):"),
+ 'r15b_parse_extract_method_helper': ('C02', 'hotxlfp/parser.py',
+   "    def set_function(self, name, f):\n",
+   "    def _error_text(self, e):\n        if self.debug:\n            traceback.print_exc()\n        return str(formulaserror.from_message(e))\n\n    def set_function(self, name, f):\n"),
+ 'r16_column_memo_correct': ('C19', 'hotxlfp/helper/cell.py',
+   "def column_label_to_index(label):\n    result = 0\n    if isinstance(label, string_types):\n        label = label.upper()\n",
+   "_COLUMN_INDEX = {}\n\n\ndef column_label_to_index(label):\n    if isinstance(label, string_types) and label.upper() in _COLUMN_INDEX:\n        return _COLUMN_INDEX[label.upper()]\n    result = _column_label_to_index(label)\n    if isinstance(label, string_types):\n        _COLUMN_INDEX[label.upper()] = result\n    return result\n\n\ndef _column_label_to_index(label):\n    result = 0\n    if isinstance(label, string_types):\n        label = label.upper()\n"),
+ 'r18_match_hoisted_lower': ('C18', 'hotxlfp/formulas/lookupandreference.py',
+   "    index = None\n    index_value = None\n    for idx in range(len(lookup_array)):\n        if match_type == 1:\n            if lookup_array[idx] == lookup_value:",
+   "    index = None\n    index_value = None\n    pattern = lookup_value.lower() if isinstance(lookup_value, string_types) else None\n    for idx in range(len(lookup_array)):\n        if match_type == 1:\n            if lookup_array[idx] == lookup_value:"),
+ 'r18b_match_hoisted_lower_use': ('C18', 'hotxlfp/formulas/lookupandreference.py',
+   "fnmatch.fnmatch(lookup_array[idx].lower(), lookup_value.lower()):",
+   "fnmatch.fnmatch(lookup_array[idx].lower(), pattern):"),
+ 'r19_criteria_pairs_helper': ('C11', 'hotxlfp/formulas/statistical.py',
+   "@dispatcher.register_for('MAXIFS')\ndef MAXIFS(sum_args, *criteria):\n    if len(criteria) % 2 != 0:\n        return error.ERROR\n    range_and_preds = list(zip(criteria[::2], (utils.parse_criteria(criterion) for criterion in criteria[1::2])))\n",
+   "def _criteria_pairs(criteria):\n    return [(criteria[i], utils.parse_criteria(criteria[i + 1])) for i in range(0, len(criteria), 2)]\n\n\n@dispatcher.register_for('MAXIFS')\ndef MAXIFS(sum_args, *criteria):\n    if len(criteria) % 2 != 0:\n        return error.ERROR\n    range_and_preds = _criteria_pairs(criteria)\n"),
+ 'r20_emit_list_copy': ('C20', 'hotxlfp/tinyemitter.py',
+   "        listeners = self._e[name][:]\n",
+   "        listeners = list(self._e[name])\n"),
 }
+
+# edits applied together with another one (same refactoring, two hunks)
+GROUPS = {'r15_parse_extract_method': ['r15b_parse_extract_method_helper'], 'r18_match_hoisted_lower': ['r18b_match_hoisted_lower_use']}
 
 
 def main():
     os.makedirs(OUT, exist_ok=True)
+    grouped = set(x for v in GROUPS.values() for x in v)
     for name, (prop, path, old, new) in EDITS.items():
+        if name in grouped:
+            continue
         wt = tempfile.mkdtemp(prefix='rf_')
         shutil.rmtree(wt)
         subprocess.check_call(['git', '-C', '/repo', 'worktree', 'add', '-q', '--detach', wt, 'HEAD'])
@@ -65,6 +92,12 @@ def main():
             s = open(p).read()
             assert s.count(old) == 1, (name, s.count(old))
             open(p, 'w').write(s.replace(old, new))
+            for extra in GROUPS.get(name, ()):
+                _, path2, old2, new2 = EDITS[extra]
+                p2 = os.path.join(wt, path2)
+                s2 = open(p2).read()
+                assert s2.count(old2) == 1, (extra, s2.count(old2))
+                open(p2, 'w').write(s2.replace(old2, new2))
             r = subprocess.run('/venv/bin/python -m pytest -q -p no:cacheprovider 2>&1 | tail -1', shell=True, cwd=wt, stdout=subprocess.PIPE, universal_newlines=True)
             assert '165 passed' in r.stdout, (name, r.stdout)
             d = subprocess.run(['git', '-C', wt, 'diff', '--', 'hotxlfp'], stdout=subprocess.PIPE, universal_newlines=True).stdout
